@@ -104,10 +104,32 @@ class C07(Check):
         knobs["SLEEP_TIMER"] = rng.choice([0.1, 0.3])
         if any(st["op"] == "backlog_dwr" for cn in conns for st in cn["steps"]):
             knobs["SEND_BUFFER_MAXIMUM_SIZE"] = rng.choice([1800, 2400, 4096])
-        return {"mode": mode, "conns": conns, "sched": draw_sched(rng), "knobs": knobs, "bystander": bystander_for(index),
-                "net": {"max_latency": rng.choice([0.0005, 0.003]), "p_fragment": rng.choice([0.0, 0.3]),
-                        "p_partial_write": rng.choice([0.0, 0.3])},
-                "watchdog": 30, "horizon": 150.0}
+        scn = {"mode": mode, "conns": conns, "sched": draw_sched(rng), "knobs": knobs, "bystander": bystander_for(index),
+               "net": {"max_latency": rng.choice([0.0005, 0.003]), "p_fragment": rng.choice([0.0, 0.3]),
+                       "p_partial_write": rng.choice([0.0, 0.3])},
+               "watchdog": 30, "horizon": 150.0}
+        # later additions draw from a generator of their own (the stream above stays what it was)
+        rng2 = random.Random(rng.getrandbits(48))
+        slow = False
+        for cn in conns:
+            if rng2.random() < 0.3:
+                # an application message whose payload AVP holds the complete encoding of a DWR nobody sent,
+                # delivered in two pieces (possibly seconds apart): if the node's framing ever loses its place,
+                # the payload is taken for a message and "answered"
+                g = rng2.choice([0.0, 0.02, 0.3, 1.3, 2.6])
+                cn["steps"].insert(rng2.randrange(len(cn["steps"]) + 1),
+                                   {"op": "embedded", "cut": rng2.getrandbits(30), "gap2": g, "gap": rng2.choice([0.0, 0.001, 0.02])})
+                slow = slow or g >= 1.0
+            if rng2.random() < 0.2:
+                # a slow peer: one DWR arrives in two pieces seconds apart
+                g = rng2.choice([0.3, 1.3, 2.6, 5.0])
+                cn["steps"].insert(rng2.randrange(len(cn["steps"]) + 1),
+                                   {"op": "dwr_slow", "ids": [0x51000000 + rng2.getrandbits(20), 0x52000000 + rng2.getrandbits(20)],
+                                    "cut": rng2.getrandbits(30), "gap2": g, "gap": rng2.choice([0.0, 0.001, 0.02])})
+                slow = slow or g >= 1.0
+        if slow:
+            knobs["STATE_MACHINE_TICKER"] = max(knobs["STATE_MACHINE_TICKER"], 0.002)
+        return scn
 
     def shrink(self, scn):
         cs = scn["conns"]
@@ -210,6 +232,23 @@ class C07(Check):
                             hb_counter[0] += 1
                             w.peer.send(C.app_request(APP_ID, 316, hb_counter[0], hb_counter[0], "p;7;%d" % hb_counter[0],
                                                       PEER_HOST, PEER_REALM, NODE_REALM))
+                    elif op in ("embedded", "dwr_slow"):
+                        if op == "embedded":
+                            hb_counter[0] += 1
+                            ghost = C.enc_msg(C.dwr(PEER_HOST, PEER_REALM, hbh=0xDEADBE00 + (hb_counter[0] & 0xFF), e2e=0xFEEDFA00 + (hb_counter[0] & 0xFF)))
+                            m = C.app_request(APP_ID, 316, hb_counter[0], hb_counter[0], "p;8;%d" % hb_counter[0],
+                                              PEER_HOST, PEER_REALM, NODE_REALM, extra=[(99997, 0, None, ghost)])
+                        else:
+                            m = C.dwr(PEER_HOST, PEER_REALM, hbh=st["ids"][0], e2e=st["ids"][1])
+                        enc = C.enc_msg(m)
+                        cut = 1 + st["cut"] % (len(enc) - 1)
+                        if op == "embedded" and st["cut"] % 2 == 0:
+                            # the second piece begins exactly where the embedded encoding begins
+                            cut = enc.find(ghost)
+                        lat = w.net.cfg.min_latency
+                        w.peer.send(m, cuts=[cut], delays=[lat, lat + st["gap2"]])
+                        stats["slow_pieces"] = stats.get("slow_pieces", 0) + (1 if st["gap2"] >= 1.0 else 0)
+                        sim.sleep(st["gap2"] + 0.01)
                     elif op == "backlog_dwr":
                         from bromelia.base import DiameterAVP
 
